@@ -199,6 +199,24 @@ class Adapter(object):
                 if res is None:
                     raise RuntimeError("embed() refused an in-domain embedding")
                 self.grid = res
+            elif op == "refused":
+                # a call outside the operation's precondition: the library may raise (that is the documented refusal);
+                # whatever it does, the state it leaves behind is recorded and judged
+                try:
+                    c = a["call"]
+                    if c == "rename_rocktype":
+                        g.rename_rocktype(real_rock(a["r"]), real_rock(a["q"]))
+                    elif c == "delete_block":
+                        g.delete_block(real_block(a["n"]))
+                    elif c == "delete_connection":
+                        g.delete_connection((real_block(a["a"]), real_block(a["b"])))
+                    elif c == "delete_rocktype":
+                        g.delete_rocktype(real_rock(a["r"]))
+                    elif c == "minc":
+                        g.minc([f * 0.01 for f in a["fr"]], blocks=[real_block(n) for n in a["sel"]], atmos_volume=float(self.atmvol))
+                    a["raised"] = False
+                except Exception as ex:
+                    a["raised"] = True
             else:
                 raise ValueError("unknown op " + op)
         self.tag_all()
@@ -261,7 +279,7 @@ def key(st):
 
 # ---------------------------------------------------------------- trace validation
 TRACE_CFG = """CONSTANTS
-  Base = {"a", "b", "c", "d", "e", "f", "g", "h"}
+  Base = {"a", "b", "c", "d", "e", "f", "g", "h", "ya", "yb", "yc"}
   RockBase = {"p", "q", "r"}
   Kinds = {"v"}
   Fracs = {}
@@ -400,6 +418,33 @@ def random_action(ad, rng, base, rocks, kinds, fracs, allow_minc=True):
                          "add_block", "add_block", "delete_block", "add_connection", "add_connection",
                          "delete_connection", "demote_block", "rename_blocks", "rename_blocks",
                          "reorder", "reorder", "minc", "embed"])
+        if rng.random() < 0.08:
+            c = rng.choice(["rename_rocktype", "delete_block", "delete_connection", "delete_rocktype", "minc", "minc"])
+            if c == "rename_rocktype" and len(rks) >= 2:
+                r, q = rng.sample(rks, 2)
+                return {"op": "refused", "call": c, "r": r, "q": q, "clean": True}
+            if c == "delete_block":
+                miss = [n for n in base if n not in liveset]
+                if miss:
+                    return {"op": "refused", "call": c, "n": rng.choice(miss), "clean": True}
+            if c == "delete_connection" and len(live) >= 2:
+                x, y = rng.sample(live, 2)
+                if (x, y) not in ckeys:
+                    return {"op": "refused", "call": c, "a": x, "b": y, "clean": True}
+            if c == "delete_rocktype":
+                miss = [r for r in rocks if r not in rks]
+                if miss:
+                    return {"op": "refused", "call": c, "r": rng.choice(miss), "clean": True}
+            if c == "minc" and allow_minc:
+                # two selected blocks whose names differ only in the first character: their matrix block names collide
+                blocks = dict((abs_block(b.name), b) for b in g.blocklist)
+                pairs = [(n, "y" + n) for n in live if len(n) == 1 and ("y" + n) in liveset and ("1" + n) not in liveset
+                         and 0 < blocks[n].volume < ad.atmvol and 0 < blocks["y" + n].volume < ad.atmvol]
+                if pairs:
+                    sel = list(rng.choice(pairs))
+                    rng.shuffle(sel)
+                    return {"op": "refused", "call": c, "fr": [10, 90], "sel": sel, "clean": False}
+            continue
         if op == "embed" and live:
             h = rng.choice(live)
             n = rng.randint(1, 2)
@@ -441,7 +486,10 @@ def random_action(ad, rng, base, rocks, kinds, fracs, allow_minc=True):
             return {"op": op, "a": a, "b": b}
         if op == "demote_block" and live:
             k = rng.randint(1, min(3, len(live)))
-            return {"op": op, "names": rng.sample(live, k)}
+            names = rng.sample(live, k)
+            if rng.random() < 0.3:          # the same block named twice (overlapping selections concatenated)
+                names = names + [rng.choice(names)]
+            return {"op": op, "names": names}
         if op == "rename_blocks" and live:
             k = rng.randint(1, len(live))
             src = rng.sample(live, k)
@@ -490,5 +538,7 @@ def random_traces(t2grids, rng, ntraces, length, base, rocks, kinds, fracs):
                 tr.append({"act": a, "state": ad.project(), "error": repr(e)})
                 break
             tr.append({"act": a, "state": ad.project()})
+            if a["op"] == "refused" and not a["clean"]:
+                break           # what a partially applied call leaves behind is judged, but not built upon
         traces.append(tr)
     return traces
